@@ -29,6 +29,14 @@ PROPERTIES = {
         "level_note": "Assumed: str::parse::<u16> (Ok exactly for digit strings with value <= 65535), console::Style::from_dotted_str total, char::is_ascii_whitespace, TabExpandedString::new opaque. Not decided here: that exactly the grammar's literal characters and placeholder fields are produced (the full automaton-equals-grammar proof) and that format_state renders one output line per template line -- the replay driver evaluates that clause on a family of well-formed templates as a sanity check only.",
         "assumptions": ["R4 arm duplication, R5 helpers (parse_u16, take_string), R15 Cow as String"],
     },
+    "C16": {
+        "units": ["c16_tabs"],
+        "level": "proof",
+        "explanation": "TabExpandedString::{new, expanded, set_tab_width}, Template::set_tab_width, ProgressStyle::set_tab_width, BarState::{set_tab_width, set_style, finish_using_style}, TabRewriter::write_str and ProgressBar::{set_message, set_prefix, with_message, with_prefix, with_tab_width, message, prefix} extracted and verified against expand(s, n) = 'every TAB replaced by n spaces'; the bar-level invariant tabs_wf (message, prefix, every template literal and the custom-key rewriter use the bar's current tab width; a cached expansion is the expansion for the current width) is preserved by every mutator, which discharges the 'any order of calls' quantifier once per operation.",
+        "level_text": "Deductive proof (Verus) for all texts, tab widths and call orders: expanded()/message()/prefix() return exactly expand(original, current tab width), which provably contains no TAB; every mutator re-establishes the invariant, so the result holds after any sequence of calls, not a sampled one.",
+        "level_note": "Assumed: str::contains / str::replace / String::repeat / OnceLock::get_or_init replaced by first-order helpers with contracts (R5); the OnceLock cache is not filled in the model, instead every cache state allowed by the invariant is considered (sound for the returned text). Cow<'static,str> as String. BarState::draw / update_estimate_and_draw enter through their frame contract. That format_state pushes only texts obtained through expanded()/TabRewriter into bar lines is decided with C11's unit, not here.",
+        "assumptions": ["R2: Arc<Mutex<BarState>> as a plain field (sequential)"],
+    },
     "C14": {
         "units": ["c14_style"],
         "level": "proof",
